@@ -49,6 +49,7 @@ type worldCfg struct {
 	undial   map[string]bool
 	ranges   [][3]interface{} // lo, hi, addr
 	single   bool             // clients send single-key requests only (layouts with two connections per node)
+	hole     bool             // the layout leaves a slot unowned
 }
 
 const timeoutMs = 15
@@ -688,6 +689,7 @@ func layouts(r *rng.R) worldCfg {
 		cfg.ranges = [][3]interface{}{{0, 5460, nodes[0]}, {5461, 10922, nodes[1]}, {10923, 16383, nodes[2]}}
 	case 1: // a hole around the slot of {hole}
 		cfg.ranges = [][3]interface{}{{0, hole - 1, nodes[0]}, {hole + 1, 16383, nodes[1]}}
+		cfg.hole = true
 	case 2: // third node cannot be dialled
 		cfg.ranges = [][3]interface{}{{0, 5460, nodes[0]}, {5461, 10922, nodes[1]}, {10923, 16383, nodes[2]}}
 		cfg.undial[nodes[2]] = true
@@ -785,8 +787,11 @@ func runHistory(seed uint64, idx int, quick bool) (in sx.V, out sx.V, tags []str
 				w.runTasks()
 			}
 		case 19:
-			// a node stops / starts accepting connections (what is connected stays connected)
-			if r.Chance(50) && len(cfg.nodes) > 1 {
+			// a node stops / starts accepting connections (what is connected stays connected).  Not in
+			// the layout with an unowned slot: a request with one fragment on the unowned slot and one
+			// on an unreachable node is answered with either error, whichever fragment Go's map order
+			// reaches first - both are right, and the model has no oracle for that choice
+			if r.Chance(50) && len(cfg.nodes) > 1 && !cfg.hole {
 				a := cfg.nodes[r.Range(1, len(cfg.nodes)-1)]
 				cfg.undial[a] = !cfg.undial[a]
 				w.record(sx.L(sx.I(12), sx.S(a), sx.Bool(!cfg.undial[a])))
